@@ -687,6 +687,7 @@ func (c *fn) analyse() {
 		}
 		c.fi.params = append(c.fi.params, pi)
 	}
+	c.checkAliases()
 	// results
 	res := c.sig.Results()
 	c.fi.nres = res.Len()
@@ -778,7 +779,7 @@ func (c *fn) translate(it *item) {
 		body := func() string { return c.block(c.decl.Body.List, end) }
 		var pre []string
 		for _, r := range c.namedRes {
-			pre = append(pre, fmt.Sprintf("let %s := %s in", c.nameOf(r), c.g.zero(r.Type(), c.sub)))
+			pre = append(pre, fmt.Sprintf("let %s : %s := %s in", c.nameOf(r), c.varType(r), c.g.zero(r.Type(), c.sub)))
 		}
 		term := body()
 		if len(pre) > 0 {
@@ -958,4 +959,211 @@ func (c *fn) varType(o types.Object) string {
 		return c.g.typ(resolve(o.Type(), c.sub).(*types.Pointer).Elem(), c.sub)
 	}
 	return c.g.typ(o.Type(), c.sub)
+}
+
+
+// checkAliases refuses a function in which a map / pointer this function may
+// mutate (created here, or a mutated map parameter) is mutated after a second
+// reference to it has been made (assigned to another variable or field, put in
+// a literal, handed to a function that could return it): such a variable is a
+// value in the translation, and the alias would not see the mutation.
+func (c *fn) checkAliases() {
+	type occ struct {
+		pos   token.Pos
+		loops []ast.Node
+	}
+	aliases := map[types.Object][]occ{}
+	muts := map[types.Object][]occ{}
+	appended := map[types.Object]bool{}
+	for _, o := range c.okAppend() {
+		appended[o] = true
+	}
+	tracked := func(o types.Object) bool {
+		if o != nil && appended[o] && c.g.kind(o.Type(), c.sub) == kSlice {
+			return true // x = append(x, ..): two slices sharing a backing array would be told apart
+		}
+		if o == nil || !c.mutable[o] {
+			return false
+		}
+		k := c.g.kind(o.Type(), c.sub)
+		if k == kStruct {
+			// a struct value holding a map this function writes to
+			for _, fresh := range c.freshFields[o] {
+				if fresh {
+					return true
+				}
+			}
+			return false
+		}
+		return k == kMap || k == kPtr
+	}
+	mayCarry := func(t types.Type) bool {
+		carry := func(t types.Type) bool {
+			switch c.g.kind(t, c.sub) {
+			case kString, kInt, kBool, kError, kUnit, kTime, kRegexp, kDropped:
+				return false
+			}
+			return true
+		}
+		if tu, ok := t.(*types.Tuple); ok {
+			for i := 0; i < tu.Len(); i++ {
+				if carry(tu.At(i).Type()) {
+					return true
+				}
+			}
+			return false
+		}
+		return t != nil && carry(t)
+	}
+	var stack []ast.Node
+	loopsOf := func() []ast.Node {
+		var out []ast.Node
+		for _, n := range stack {
+			switch n.(type) {
+			case *ast.ForStmt, *ast.RangeStmt:
+				out = append(out, n)
+			}
+		}
+		return out
+	}
+	rootMut := func(e ast.Expr) {
+		// e is an lvalue that is not a plain identifier: its root is mutated
+		if _, plain := unparen(e).(*ast.Ident); plain {
+			return
+		}
+		if id := c.rootIdent(e); id != nil {
+			if o := c.objOf(id); tracked(o) {
+				muts[o] = append(muts[o], occ{e.Pos(), loopsOf()})
+			}
+		}
+	}
+	ast.Inspect(c.decl.Body, func(n ast.Node) bool {
+		if n == nil {
+			stack = stack[:len(stack)-1]
+			return true
+		}
+		stack = append(stack, n)
+		switch x := n.(type) {
+		case *ast.AssignStmt:
+			for _, l := range x.Lhs {
+				rootMut(l)
+			}
+			for _, r := range x.Rhs {
+				if call, ok := unparen(r).(*ast.CallExpr); ok {
+					if o := c.okAppend()[call]; o != nil && tracked(o) {
+						muts[o] = append(muts[o], occ{call.Pos(), loopsOf()})
+					}
+				}
+			}
+		case *ast.IncDecStmt:
+			rootMut(x.X)
+		case *ast.Ident:
+			o := c.objOf(x)
+			if !tracked(o) || len(stack) < 2 {
+				return true
+			}
+			// the closest ancestor that is not a parenthesis
+			pi := len(stack) - 2
+			for pi > 0 {
+				if _, ok := stack[pi].(*ast.ParenExpr); !ok {
+					break
+				}
+				pi--
+			}
+			child := ast.Node(x)
+			if pi+1 < len(stack)-1 {
+				child = stack[pi+1]
+			}
+			alias := true
+			switch p := stack[pi].(type) {
+			case *ast.SelectorExpr:
+				if p.X == child {
+					alias = false
+					if sel, ok := c.info.Selections[p]; ok && sel.Kind() == types.MethodVal {
+						// a method call on it: mutation when the callee mutates it, alias when its results could carry it
+						if pi > 0 {
+							if call, ok := stack[pi-1].(*ast.CallExpr); ok && call.Fun == ast.Expr(p) {
+								fi, _, _ := c.calleeInfoSafe(call)
+								if fi != nil && len(fi.params) > 0 && fi.params[0].inout {
+									muts[o] = append(muts[o], occ{x.Pos(), loopsOf()})
+								} else if mayCarry(c.info.TypeOf(call)) {
+									alias = true
+								}
+							}
+						}
+					}
+				}
+			case *ast.IndexExpr:
+				alias = p.X != child
+			case *ast.StarExpr, *ast.RangeStmt, *ast.ReturnStmt, *ast.BinaryExpr:
+				alias = false
+			case *ast.AssignStmt:
+				for _, l := range p.Lhs {
+					if l == child {
+						alias = false
+					}
+				}
+			case *ast.ValueSpec:
+				for _, nm := range p.Names {
+					if nm == x {
+						alias = false
+					}
+				}
+			case *ast.CallExpr:
+				if id, ok := unparen(p.Fun).(*ast.Ident); ok {
+					if b, ok := c.info.Uses[id].(*types.Builtin); ok {
+						switch b.Name() {
+						case "len", "append", "cap", "copy":
+							alias = false
+						case "delete":
+							alias = false
+							if len(p.Args) > 0 && p.Args[0] == child {
+								muts[o] = append(muts[o], occ{x.Pos(), loopsOf()})
+							}
+						}
+						break
+					}
+				}
+				fi, _, recv := c.calleeInfoSafe(p)
+				if fi != nil {
+					args := p.Args
+					if recv != nil {
+						args = append([]ast.Expr{recv}, args...)
+					}
+					for i, a := range args {
+						if a == child && i < len(fi.params) {
+							if fi.params[i].inout {
+								alias = false
+								muts[o] = append(muts[o], occ{x.Pos(), loopsOf()})
+							} else if !mayCarry(c.info.TypeOf(p)) {
+								alias = false
+							}
+						}
+					}
+				}
+			}
+			if alias {
+				aliases[o] = append(aliases[o], occ{x.Pos(), loopsOf()})
+			}
+		}
+		return true
+	})
+	for o, as := range aliases {
+		for _, a := range as {
+			for _, m := range muts[o] {
+				bad := m.pos > a.pos
+				for _, la := range a.loops {
+					for _, lm := range m.loops {
+						if la == lm {
+							bad = true
+						}
+					}
+				}
+				if bad {
+					panic(unsup{fmt.Sprintf("%s is mutated (%s) after a second reference to it was made (%s): aliasing is not modelled",
+						o.Name(), c.g.L.pos(m.pos, c.pkg), c.g.L.pos(a.pos, c.pkg))})
+				}
+			}
+		}
+	}
 }
